@@ -8,6 +8,7 @@
 // Three-way: besides printing what fcppt computes, every line recomputes the results naively on plain
 // std::vector<long> and reports nv=1 when they agree (nv=0:<what> otherwise); the Lean model prints nv=1.
 #include "common/vh.hpp"
+#include "common/route.hpp"
 
 #include <fcppt/cast/size_fun.hpp>
 #include <fcppt/math/size_type.hpp>
@@ -244,23 +245,59 @@ std::string show_opt(O const &o, F f)
 
 // ------------------------------------------------------------------ operand holders
 
+// Every static vector / dim / matrix the operations are applied to travels through a special member of its class first
+// (common/route.hpp, notes/sweep.md): copy / move construction, copy / move assignment over an object holding different
+// elements, self assignment, swap.  The route is a function of the elements; mismatches are collected here and appended
+// to the result line by handle().
+std::string sm_mismatch;
+
+template <std::size_t K>
+unsigned sm_route(std::array<T, K> const &a)
+{
+  unsigned h{static_cast<unsigned>(K)};
+  for (T const e : a)
+    h = h * 31U + static_cast<unsigned>(e) + 7U;
+  return h ^ (h >> 9U);
+}
+
 template <sz N>
 svec<N> make_svec(std::array<T, N> const &a)
 {
-  return fm::vector::init<svec<N>>([&a]<sz I>(fm::size_constant<I>) { return a[I]; });
+  return vh::sm::checked(
+      sm_mismatch,
+      "math::vector::object",
+      sm_route(a),
+      fm::vector::init<svec<N>>([&a]<sz I>(fm::size_constant<I>) { return a[I]; }),
+      [&a] { return fm::vector::init<svec<N>>([&a]<sz I>(fm::size_constant<I>) { return a[I] + 1 + static_cast<T>(I); }); },
+      [](svec<N> const &v) { return show(vals(v)); });
 }
 template <sz N>
 sdim<N> make_sdim(std::array<T, N> const &a)
 {
-  return fm::dim::init<sdim<N>>([&a]<sz I>(fm::size_constant<I>) { return a[I]; });
+  return vh::sm::checked(
+      sm_mismatch,
+      "math::dim::object",
+      sm_route(a),
+      fm::dim::init<sdim<N>>([&a]<sz I>(fm::size_constant<I>) { return a[I]; }),
+      [&a] { return fm::dim::init<sdim<N>>([&a]<sz I>(fm::size_constant<I>) { return a[I] + 1 + static_cast<T>(I); }); },
+      [](sdim<N> const &v) { return show(vals(v)); });
 }
 // the harness's own row-major convention: element (Row, Col) is a[Row * C + Col]
 template <sz R, sz C>
 smat<R, C> make_smat(std::array<T, R * C> const &a)
 {
-  return fm::matrix::init<smat<R, C>>([&a]<sz Row, sz Col>(fm::matrix::index<Row, Col>) { return a[Row * C + Col]; });
+  return vh::sm::checked(
+      sm_mismatch,
+      "math::matrix::object",
+      sm_route(a),
+      fm::matrix::init<smat<R, C>>([&a]<sz Row, sz Col>(fm::matrix::index<Row, Col>) { return a[Row * C + Col]; }),
+      [&a]
+      {
+        return fm::matrix::init<smat<R, C>>([&a]<sz Row, sz Col>(fm::matrix::index<Row, Col>)
+                                            { return a[Row * C + Col] + 1 + static_cast<T>(Row * C + Col); });
+      },
+      [](smat<R, C> const &m) { return show(mvals(m)); });
 }
-
 template <sz N>
 struct buf_holder
 {
@@ -1386,7 +1423,16 @@ std::string digest_of(unsigned count, F line)
   return "D " + vh::hex64(h);
 }
 
+std::string handle0(std::vector<std::string> const &t);
+
 std::string handle(std::vector<std::string> const &t)
+{
+  sm_mismatch.clear();
+  std::string const r{handle0(t)};
+  return r + sm_mismatch;
+}
+
+std::string handle0(std::vector<std::string> const &t)
 {
   using toks = std::vector<std::string>;
   if (t.size() == 5 && t[0] == "vecs")
